@@ -204,8 +204,9 @@ where
     // Channel to collect results from all attempts
     let (tx, mut rx) = mpsc::channel::<(usize, Result<S::Response, S::Error>)>(max_attempts);
 
-    // Spawn primary request
-    let mut service_clone = service.clone();
+    // Spawn primary request on the instance that was polled ready; hedges use clones of it
+    let mut service_clone = service;
+    let service = service_clone.clone();
     let req_clone = req.clone();
     let tx_clone = tx.clone();
     tokio::spawn(async move {
